@@ -44,8 +44,13 @@ def run(tier):
         for e in ents:
             cases.append({"entry": e, "chan": rnd.choice(["none", "unbuf", "buf"]), "profile": rnd.choice(profiles),
                           "data": d, "pclass": "ok", "dclass": c})
+        if n % 3 == 0 or tier == "thorough":
+            # the same text again, back to back in the same process (and through another profile): a verdict must
+            # not appear on the second attempt either
+            cases.append({"entry": ENTRIES[n % 4], "chan": "none", "profile": rnd.choice(profiles), "data": d,
+                          "pclass": "ok", "dclass": c, "repeat": 3})
     obs = proto.run_cases("c04", cases)
-    skipped = [o for o in obs if o.get("skipped")]
+    skipped = [o for o in obs if o.get("skipped") and "poisoned" not in o["skipped"]]
     if len(skipped) > len(obs) // 10:
         raise vlib.Infra("too many cases skipped (%d): %s" % (len(skipped), skipped[0]))
     lines, byid = proto.to_trace(obs)
